@@ -172,8 +172,8 @@ def run(ctx, pid, props_file, profiles, variants, n_quick, n_thorough, assumptio
         'mechanisms_exercised': dict(tagcount),
         'domain_source': 'domains.json (calibrated on the pinned tree by bin/calibrate.py; cells with 0 failures in >= %d runs, '
                          'or 0 failures among >= %d programs without the excluded feature)' % (MIN_N, MIN_N_WITHOUT),
-        'theorems': C.theorem_names(C.COQ + '/theories/Props/%s.v' % props_file),
+        'theorems': sum([C.theorem_names(C.COQ + '/theories/Props/%s.v' % pf) for pf in (props_file if isinstance(props_file, (list, tuple)) else [props_file])], []),
         'obligations_note': obligations_note,
     }
     return C.finish(ctx, 'proof', cov, assumptions,
-                    'make -C /verif/coq theories/Props/%s.vo (coqc 8.16.1)' % props_file)
+                    'make -C /verif/coq ' + ' '.join('theories/Props/%s.vo' % pf for pf in (props_file if isinstance(props_file, (list, tuple)) else [props_file])) + ' (coqc 8.16.1)')
